@@ -85,6 +85,14 @@ def generate(rng, tier, seed):
                       "kind": "sample-again", "d": d, "vals": [10, 20, 30]})
         cases.append(dict(meta, scn=hot(["op", "sample", [], ["hot", 0], ["interval", d]], emit + ([] if end else []), sched,
                                         extra_threads=[["u", ["sleep", sum(gaps) + 3 * d + 1], ["unsub", 0]]] if not end else []), kind="sample"))
+        # debounce whose consumer takes longer than the period over an item, and whose source completes while an item is pending:
+        # whatever hands the pending item on (the worker's tick, a flush at completion) must do so at most once
+        dq = rng.choice([3, 5, 7])
+        busyc = dq + rng.choice([2, dq, 2 * dq])
+        emitq = [["sleep", 1], ["next", 0, 10], ["sleep", dq + 2], ["next", 0, 20], ["sleep", rng.choice([1, 2])], ["complete", 0]]
+        scq = hot(["op", "debounce", [dq], ["hot", 0]], emitq, sched)
+        scq[2] = ["init", ["sub", 0, 0, ["react", rng.choice([0, 1]), ["sleep", busyc]]]]
+        cases.append({"scn": scq, "kind": "debounce", "d": dq, "vals": [10, 20], "gaps": [1, dq + 2], "end": "complete", "end_gap": 1, "busy": [0, 0]})
         # sample whose consumer fires the trigger again from inside its own callback (feedback): the pending item was handed on
         # already - it must not come a second time
         fi = rng.choice([0, 0, 1])
